@@ -252,7 +252,7 @@ def char_pred(node, flags):
                 cat = str(a)
                 pat = {'CATEGORY_DIGIT': r'\d', 'CATEGORY_NOT_DIGIT': r'\D', 'CATEGORY_SPACE': r'\s', 'CATEGORY_NOT_SPACE': r'\S',
                        'CATEGORY_WORD': r'\w', 'CATEGORY_NOT_WORD': r'\W'}[cat]
-                rx = re.compile(pat)
+                rx = re.compile(pat, flags & re.ASCII)          # \\w, \\d, \\s are ASCII-only under re.ASCII
                 preds.append(lambda c, rx=rx: bool(rx.fullmatch(c)))
             else:
                 raise FstError(f'regex class item {o}')
@@ -325,12 +325,12 @@ def regex_nfa(pattern, flags, alphabet):
     return n
 
 
-def resolve_boundaries(n, alphabet, prefix=False):
+def resolve_boundaries(n, alphabet, prefix=False, flags=0):
     """NFA without \\b edges accepting the same strings (prefix=False: whole-string matches at position 0, i.e. fullmatch;
     prefix=True: strings w such that the pattern matches at position 0 of w, the rest of w arbitrary - what re.match decides).
     States are (q, last, need): last = the previous character was a word character (start of string counts as non-word),
     need = None | True (the next character must be a word character) | False (the next one must be a non-word character or the end)."""
-    word = re.compile(r'\w')
+    word = re.compile(r'\w', flags & re.ASCII)
     isw = {ch: bool(word.fullmatch(ch)) for ch in alphabet}
     marks = {}
     plain = {}
@@ -401,7 +401,7 @@ def regex_dfa(pattern, flags, alphabet, prefix=False):
     """DFA of re.fullmatch(pattern, w) (prefix=True: of re.match(pattern, w)) over the alphabet; \\b and \\B are exact"""
     n = regex_nfa(pattern, flags, alphabet)
     if prefix or any(isinstance(ch, tuple) for (_p, ch) in n.trans):
-        n = resolve_boundaries(n, alphabet, prefix)
+        n = resolve_boundaries(n, alphabet, prefix, flags)
     return n.to_dfa(alphabet)
 
 
